@@ -185,6 +185,7 @@ class BlobExchangeClientProtocol(asyncio.Protocol):
         blob_hash = blob.blob_hash
         if blob.get_is_verified() or not blob.is_writeable():
             return 0, self
+        length_was_unknown = blob.get_length() is None
         try:
             self._blob_bytes_received = 0
             self.blob, self.writer = blob, blob.get_blob_writer(self.peer_address, self.peer_port)
@@ -207,6 +208,11 @@ class BlobExchangeClientProtocol(asyncio.Protocol):
             if self.writer and not self.writer.closed():
                 self.writer.close_handle()
                 self.writer = None
+            if length_was_unknown and not blob.get_is_verified() and \
+                    all(writer.closed() for writer in blob.writers.values()):
+                # the length was only this peer's claim and the transfer failed: forget it, otherwise a peer
+                # announcing a wrong length makes every later download of this blob fail
+                blob.length = None
 
     def connection_made(self, transport: asyncio.Transport):
         addr = transport.get_extra_info('peername')
